@@ -55,20 +55,34 @@ func convCompFuncV1ToV2(cf *ugo.CompiledFunction, opWidth []int) error {
 		return nil
 	}
 
+	// Operands of the jump instructions are widened from 2 to 4 bytes, so
+	// every instruction after a jump instruction is moved. First, compute the
+	// new offset of each old offset to relocate jump and try positions.
+	// An offset within an instruction keeps its distance to the opcode.
 	var hasJump bool
-	for i := 0; !hasJump && i < len(cf.Instructions); {
+	offsets := make([]int, len(cf.Instructions)+1)
+	newPos := 0
+
+	for i := 0; i < len(cf.Instructions); {
 		op := cf.Instructions[i]
+		w := opWidth[op]
+
+		for j := 0; j <= w && i+j < len(cf.Instructions); j++ {
+			offsets[i+j] = newPos + j
+		}
 
 		switch op {
 		case
 			opv1.OpJump, opv1.OpJumpFalsy, opv1.OpAndJump, opv1.OpOrJump, opv1.OpSetupTry:
 			hasJump = true
-			continue
+			// each 2-byte position becomes 4-byte
+			newPos += w
 		}
 
-		w := opWidth[op]
 		i += 1 + w
+		newPos += 1 + w
 	}
+	offsets[len(cf.Instructions)] = newPos
 
 	if !hasJump {
 		return nil
@@ -96,6 +110,13 @@ func convCompFuncV1ToV2(cf *ugo.CompiledFunction, opWidth []int) error {
 				cf.Instructions[i+1:],
 				operands[:0],
 			)
+
+			for j, pos := range operands {
+				if pos >= len(offsets) {
+					return fmt.Errorf("invalid position %d at %d", pos, i)
+				}
+				operands[j] = offsets[pos]
+			}
 
 			var err error
 			instBuf, err = ugo.MakeInstruction(instBuf[:0], op, operands...)
